@@ -25,7 +25,7 @@ Qed.
 Lemma step_measure s it r : measure (fst (step s it)) (snd (step s it) ++ r) < measure s (it :: r).
 Proof.
   unfold measure.
-  destruct it as [[o|sc|sc f]|j0 [v| | |]|j0 r0]; cbn [step].
+  destruct it as [[o|sc|sc f]|j0 [v| | | |]|j0 r0]; cbn [step].
   1: destruct o as [|f|i| |i|j1 ok v]; cbn [step_sop].
   all: unfold do_acquire, fn_done, do_release, do_grant, add_holder, drop_holder;
     repeat match goal with
